@@ -198,6 +198,8 @@ class SimNet:
             self.escaped.append((self.loop.time(), src, dst, e))
             for tap in self.taps:
                 tap("escaped", self.loop.time(), src, dst, e)
+        for tap in self.taps:
+            tap("delivered", self.loop.time(), src, dst, data)
 
 
 def corrupt(data: bytes, spec: dict) -> bytes:
